@@ -150,7 +150,9 @@ def run_front(ctx, repeat=1, cross_modes=True, vary_env=False):
     rep, rng, quick = ctx["rep"], ctx["rng"], ctx["quick"]
     sessions = gen_sessions(rng, 150 if quick else 1500)
     by_id = {s["id"]: s for s in sessions}
-    P = props.proj_values(with_pos=True, with_info=True, with_text=True)
+    # positions, diagnostic details and printed text are the business of C14 / C08 / C15 / C18: the model comparison of
+    # the sessions is on results and diagnostic kinds; the binary is compared with the in-process run byte for byte below
+    P = props.proj_values()
     a, b = judges.do_stream(ctx, "sessions-inprocess", (gen.hist_case(s["id"], session_texts(s), tab=s["tab"]) for s in sessions), P)
     mism = 0
     nondet = 0
